@@ -229,7 +229,7 @@ struct aws_json_value *aws_json_get_array_element(const struct aws_json_value *a
         return NULL;
     }
 
-    if (index > (size_t)cJSON_GetArraySize(cjson)) {
+    if (index >= (size_t)cJSON_GetArraySize(cjson)) {
         aws_raise_error(AWS_ERROR_INVALID_INDEX);
         return NULL;
     }
@@ -253,7 +253,7 @@ int aws_json_value_remove_array_element(struct aws_json_value *array, size_t ind
         return aws_raise_error(AWS_ERROR_INVALID_ARGUMENT);
     }
 
-    if (index > (size_t)cJSON_GetArraySize(cjson)) {
+    if (index >= (size_t)cJSON_GetArraySize(cjson)) {
         return aws_raise_error(AWS_ERROR_INVALID_INDEX);
     }
 
